@@ -133,7 +133,10 @@ def gen(tier, seed):
         # nearly touching pairs: a gap (or overlap) of 1e-12 .. 1e-7 along a generic direction - the progress tests of the
         # unbounded loops compare quantities of this size with EPSILON-like thresholds
         lift = NW.random_lift(rng, A, B0, rng.choice(("rigid", "rigid", "scale", "id")))
-        B, _ = NW.graze(A, B0, rng, 10 ** rng.uniform(-12, -7) / lift[0], ks=(1, 1, 1, -1, 0))
+        gap = 10 ** rng.uniform(-12, -7) / lift[0]
+        B = NW.near_touch(A, B0, gap) if rng.random() < 0.7 else None          # true gap along the witness direction of the pair
+        if B is None:
+            B, _ = NW.graze(A, B0, rng, gap, ks=(1, 1, 1, -1, 0))              # slab gap along a body axis / the centre line
         drive(A, B, lift, names=("self_collision.detect", "gjk_distance_jolt", "gjk_intersection_jolt", "gjk_intersection_libccd", "gjk_distance_original",
                                  "gjk_nesterov_accelerated", "mpr_intersection", "mpr_penetration", "epa"))
     poly, rnd = NW.spec_pool()
